@@ -231,3 +231,250 @@ def node_indices(nodes, acc=None, role='member'):
         if isinstance(f.get('members'), list):
             node_indices(f['members'], acc, 'member')
     return acc
+
+
+class ScriptWriter(Native):
+    """Bit writer that records what it is asked to write."""
+
+    def __init__(self):
+        self.log = []
+
+    def __repr__(self):
+        return 'ScriptWriter(%d)' % len(self.log)
+
+    def call_method(self, name, args, kwargs, interp, frame, node):
+        if name == 'get_pos':
+            return 0
+        if name.startswith('write') or name == 'skip':
+            self.log.append((name, tuple(args)))
+            return None
+        raise AnalysisError('pipeline fold: bit_writer.%s is not modelled' % name)
+
+
+def encode(repo, members, vals):
+    """Fold of Encoder.process_members on a state that holds the given flat values.  Returns (result, writer)."""
+    from sa.rules.walk import fold_init
+    fi = repo.method('Encoder', 'process_members')
+    it = PipeInterp(repo, 'Encoder')
+    box = {}
+
+    def mk():
+        sts = fold_init(repo, False, 1, values=[list(vals)])
+        plain = [x for x in sts if isinstance(x.fields.get('decoded_values_all_subsets'), list) and all(type(v) is list for v in x.fields['decoded_values_all_subsets'])]
+        st = (plain or sts)[0]
+        wr = ScriptWriter()
+        box['st'], box['wr'] = st, wr
+        return {'self': Obj('Encoder', {}), 'state': st, 'bit_operator': wr, 'members': list(members)}
+    res = it.run_function(fi, mk, self_class='Encoder')
+    if len(res) != 1:
+        raise AnalysisError('pipeline fold: Encoder.process_members forks into %d paths on a concrete template and value list' % len(res))
+    return res[0], box['st'], box['wr']
+
+
+# ---------------------------------------------------------------------------
+# Independent reading of a template by the FM-94 rules (regulation 94.5, Table C), written from the specification and the label
+# scheme of the documentation - not from the repository's code.  Uncompressed data, one subset, well-formed templates of the family.
+MARKER_PREFIX = {223: 'T', 224: 'F', 225: 'D', 232: 'R'}
+NON_NUMERIC = ('CCITT IA5', 'CODE TABLE', 'FLAG TABLE')
+
+
+def reference_walk(members, script):
+    """Returns (entries, links): entries = [(label, kind, width, value)] in flat order (kind: uint / int / bytes / const),
+    links = {flat index of an attribute value: flat index of its owner}."""
+    from fractions import Fraction
+    S = {'off201': 0, 'off202': 0, 'bits203': 0, 'refvals': {}, 'assoc': [], 'skip206': 0, 'inc207': (0, 0, 1), 'nbytes208': 0, 'dnp': 0, 'qa': None,
+         'bm': 'NA', 'nbits_bm': 0, 'reuse_next': False, 'reuse_bitmap': None, 'back': None, 'boundary': 0, 'selected': None, 'pos': 0}
+    out, links, kinds = [], {}, []      # kinds[i]: 'element' for a plain element entry (candidate for back reference)
+    k = [0]
+
+    def take():
+        v = script[k[0]]
+        k[0] += 1
+        return v
+
+    def label(i):
+        return '%06d' % i
+
+    def emit(lab, kind, width, value, plain=None):
+        out.append((lab, kind, width, value))
+        kinds.append(plain)
+
+    def next_selected():
+        sel = S['selected']
+        e = sel[S['pos']]
+        S['pos'] += 1
+        return e
+
+    def define_bitmap():
+        n = S['nbits_bm']
+        bits = [e[3] for e in out[-n:]] if False else None
+        # the bits are the values of the last n 031031 entries
+        vals = [e[3] for e in out if e[0] == '031031'][-n:]
+        if S['back'] is None:
+            cands = [i for i in range(S['boundary']) if kinds[i] is not None]
+            S['back'] = cands[-n:]
+        S['selected'] = [(i, kinds[i]) for bit, i in zip(vals, S['back']) if bit == 0]
+        S['pos'] = 0
+        if S['reuse_next']:
+            S['reuse_bitmap'] = list(vals)
+        S['bm'] = 'NA'
+
+    def value_of(raw, scale, ref):
+        if raw is None:
+            return None
+        v = Fraction(raw + ref)
+        if scale:
+            v = v / (Fraction(10) ** scale)
+            return float(v)
+        return int(v)
+
+    def element(d, marker=None, as_factor=False):
+        f = d.fields
+        X = f['id'] // 1000 % 100
+        lab = label(f['id'])
+        nbits, scale, ref, unit = f['nbits'], f['scale'], f['refval'], f['unit']
+        if marker is not None:
+            lab = MARKER_PREFIX[marker] + lab[1:]
+            if marker == 225:
+                ref, nbits = -(2 ** nbits), nbits + 1
+        if marker is None:
+            if S['dnp'] > 0:
+                S['dnp'] -= 1
+                if not (1 <= X <= 9 or X == 31):
+                    return
+            if S['skip206']:
+                w, S['skip206'] = S['skip206'], 0
+                emit('S' + lab[1:], 'uint', w, take())
+                return
+            if S['bits203'] and X != 31:
+                raw = take()
+                S['refvals'][f['id']] = raw
+                emit(lab, 'int', S['bits203'], raw, plain=d)
+                return
+        if S['assoc'] and X != 31:
+            emit('A' + lab[1:], 'uint', sum(S['assoc']), take())
+        idx = len(out)
+        if marker is None and X == 33 and S['qa'] in ('waiting', 'processing'):
+            owner, _ = next_selected()
+            links[idx] = owner
+            S['qa'] = 'processing'
+        elif marker is None and S['qa'] == 'processing':
+            S['qa'] = None
+        if unit == 'CCITT IA5':
+            n = S['nbytes208'] or nbits // 8
+            emit(lab, 'bytes', n, take(), plain=d if marker is None else None)
+        elif unit in ('CODE TABLE', 'FLAG TABLE'):
+            emit(lab, 'uint', nbits, take(), plain=d if marker is None else None)
+        else:
+            w = nbits + S['off201'] + S['inc207'][0]
+            sc = scale + S['off202'] + S['inc207'][1]
+            if f['id'] in S['refvals'] and marker is None:
+                rf = S['refvals'][f['id']] * S['inc207'][2]
+            else:
+                rf = ref * S['inc207'][2]
+            emit(lab, 'uint', w, value_of(take(), sc, rf), plain=d if marker is None else None)
+
+    def operator(d):
+        code, y = d.fields['id'] // 1000, d.fields['id'] % 1000
+        lab = label(d.fields['id'])
+        if code == 201:
+            S['off201'] = y - 128 if y else 0
+        elif code == 202:
+            S['off202'] = y - 128 if y else 0
+        elif code == 203:
+            if y == 255:
+                S['bits203'] = 0
+            else:
+                S['bits203'] = y
+                if y == 0:
+                    S['refvals'] = {}
+        elif code == 204:
+            if y:
+                S['assoc'].append(y)
+            else:
+                S['assoc'].pop()
+        elif code == 205:
+            emit(lab, 'bytes', y, take())
+        elif code == 206:
+            S['skip206'] = y
+        elif code == 207:
+            S['inc207'] = ((10 * y + 2) // 3, y, 10 ** y) if y else (0, 0, 1)
+        elif code == 208:
+            S['nbytes208'] = y
+        elif code == 221:
+            S['dnp'] = y
+        elif code in (222, 223, 224, 225, 232):
+            if y == 0:
+                S['boundary'] = len(out)
+                S['bm'], S['nbits_bm'], S['reuse_next'] = 'INDICATOR', 0, False
+                if code == 222:
+                    S['qa'] = 'waiting'
+                emit(lab, 'const', None, 0)
+            else:
+                owner, e = next_selected()
+                idx0 = len(out)
+                element(e, marker=code)
+                links[len(out) - 1] = owner
+        elif code == 235:
+            # (cancel backward data reference: no entry in the flat lists - unlike 222000 .. 237255 the library does not list it)
+            S['back'], S['reuse_bitmap'], S['selected'] = None, None, None
+        elif code == 236:
+            emit(lab, 'const', None, 0)
+        elif code == 237:
+            if y == 0:
+                vals = S['reuse_bitmap']
+                S['selected'] = [(i, kinds[i]) for bit, i in zip(vals, S['back']) if bit == 0]
+                S['pos'] = 0
+            else:
+                S['reuse_bitmap'] = None
+            emit(lab, 'const', None, 0)
+        else:
+            raise AnalysisError('reference walk: operator %s is outside the family' % lab)
+
+    def step_bitmap(d):
+        st = S['bm']
+        if st == 'NA':
+            return
+        is_bit = d.cls == 'ElementDescriptor' and d.fields['id'] == 31031
+        if st == 'INDICATOR':
+            if d.cls == 'OperatorDescriptor' and d.fields['id'] == 236000:
+                S['bm'], S['reuse_next'] = 'WAITING', True
+            elif d.cls == 'OperatorDescriptor' and d.fields['id'] == 237000:
+                S['bm'] = 'NA'
+            elif is_bit:
+                S['bm'], S['nbits_bm'] = 'COUNTING', 1
+            else:
+                S['bm'] = 'WAITING'
+        elif st == 'WAITING':
+            if is_bit:
+                S['bm'], S['nbits_bm'] = 'COUNTING', S['nbits_bm'] + 1
+        elif st == 'COUNTING':
+            if is_bit:
+                S['nbits_bm'] += 1
+            else:
+                define_bitmap()
+
+    def walk(ms):
+        for d in ms:
+            step_bitmap(d)
+            if d.cls == 'ElementDescriptor':
+                element(d)
+            elif d.cls == 'OperatorDescriptor':
+                operator(d)
+            elif d.cls == 'SequenceDescriptor':
+                walk(d.fields['members'])
+            elif d.cls == 'FixedReplicationDescriptor':
+                for _ in range(d.fields['id'] % 1000):
+                    walk(d.fields['members'])
+            elif d.cls == 'DelayedReplicationDescriptor':
+                fac = d.fields['factor']
+                n = take()
+                emit(label(fac.fields['id']), 'uint', fac.fields['nbits'], n, plain=fac)
+                for _ in range(n):
+                    walk(d.fields['members'])
+            else:
+                raise AnalysisError('reference walk: member of class %s is outside the family' % d.cls)
+    walk(members)
+    if S['bm'] == 'COUNTING':
+        define_bitmap()
+    return out, links, k[0]
